@@ -74,7 +74,7 @@ theorem uint16_slice (s : GSlice) (i : Nat) (h : i + 2 ≤ s.len) :
     (s.slice i (i + 2) >>= uint16) = .ok (u16At s.vis i) := by
   rw [GSlice.slice_ok s i (i + 2) (by omega) h]
   have : i + 2 - i = 2 := by omega
-  rw [this, two_bytes s.vis i h]
+  rw [this, two_bytes s.vis i h, Res.bind_ok]
   exact uint16_two _ _ _
 
 theorem be16_lt (a b : UInt8) : be16 a b < 65536 := by
@@ -82,5 +82,80 @@ theorem be16_lt (a b : UInt8) : be16 a b < 65536 := by
   unfold be16; omega
 
 theorem u16At_lt (v : Bytes) (i : Nat) : u16At v i < 65536 := be16_lt _ _
+
+/-! ## 3. DecodeFromBytes = its functional specification -/
+
+
+theorem uint16_vis (v t : Bytes) (i : Nat) (h : i + 2 ≤ v.length) :
+    uint16 { vis := (v.drop i).take 2, tail := t } = .ok (u16At v i) := by
+  rw [two_bytes v i h]; exact uint16_two _ _ _
+
+theorem Ethernet.decode_short (old : Ethernet) (d : GSlice) (h : d.len < 14) :
+    old.decodeFromBytes d = .ok { layer := old, trunc := false, err := true } := by
+  unfold Ethernet.decodeFromBytes; rw [if_pos h]
+
+theorem Ethernet.decode_long (old : Ethernet) (d : GSlice) (h : 14 ≤ d.len) :
+    old.decodeFromBytes d = .ok (ethDecSpec d.vis) := by
+  have hl : 14 ≤ d.vis.length := h
+  unfold Ethernet.decodeFromBytes
+  rw [if_neg (by omega)]
+  rw [GSlice.slice_ok d 0 6 (by omega) (by omega), Res.bind_ok]
+  rw [GSlice.slice_ok d 6 12 (by omega) (by omega), Res.bind_ok]
+  rw [GSlice.slice_ok d 12 14 (by omega) (by omega), Res.bind_ok]
+  simp only [Nat.reduceSub]
+  rw [uint16_vis d.vis _ 12 (by omega), Res.bind_ok]
+  rw [GSlice.slice_ok d 0 14 (by omega) (by omega), Res.bind_ok]
+  rw [GSlice.sliceFrom_ok d 14 h, Res.bind_ok]
+  simp only [List.drop_zero, Nat.sub_zero]
+  unfold ethDecSpec
+  have hty := u16At_lt d.vis 12
+  generalize u16At d.vis 12 = ty at hty ⊢
+  by_cases hlt : ty < 0x0600
+  · have e : ty % 65536 = ty := Nat.mod_eq_of_lt (by omega)
+    simp only [hlt, if_true, e, GSlice.len]
+    generalize List.drop 14 d.vis = P
+    by_cases h1 : P.length < ty
+    · have : (P.length : Int) - (ty : Int) < 0 := by omega
+      simp only [this, if_true, h1, pure]
+    · by_cases h2 : ty < P.length
+      · have n1 : ¬ ((P.length : Int) - (ty : Int) < 0) := by omega
+        have n2 : (P.length : Int) - (ty : Int) > 0 := by omega
+        have n3 : ¬ ((P.length : Int) - ((P.length : Int) - (ty : Int)) < 0) := by omega
+        have n4 : ((P.length : Int) - ((P.length : Int) - (ty : Int))).toNat = ty := by omega
+        simp only [n1, n2, n3, n4, if_true, if_false, h1]
+        rw [GSlice.slice_ok _ 0 ty (by omega) (by show ty ≤ P.length; omega), Res.bind_ok]
+        simp only [List.drop_zero, Nat.sub_zero, pure]
+      · have n1 : ¬ ((P.length : Int) - (ty : Int) < 0) := by omega
+        have n2 : ¬ ((P.length : Int) - (ty : Int) > 0) := by omega
+        simp only [n1, n2, if_false, h1, pure]
+        rw [List.take_of_length_le (l := P) (by omega)]
+  · simp [hlt, pure]
+
+
+theorem GSlice.index_ok (s : GSlice) (i : Nat) (h : i < s.len) :
+    s.index i = .ok (s.vis.getD i 0) := by
+  unfold GSlice.index Gp.index
+  have h' : i < s.vis.length := h
+  simp [List.getD_eq_getElem?_getD, h']
+
+theorem Dot1Q.decode_short (old : Dot1Q) (d : GSlice) (h : d.len < 4) :
+    old.decodeFromBytes d = .ok { layer := old, trunc := true, err := true } := by
+  unfold Dot1Q.decodeFromBytes; rw [if_pos h]
+
+theorem Dot1Q.decode_long (old : Dot1Q) (d : GSlice) (h : 4 ≤ d.len) :
+    old.decodeFromBytes d = .ok (dot1qDecSpec d.vis) := by
+  have hl : 4 ≤ d.vis.length := h
+  unfold Dot1Q.decodeFromBytes
+  rw [if_neg (by omega)]
+  rw [GSlice.index_ok d 0 (by omega), Res.bind_ok, Res.bind_ok]
+  rw [GSlice.slice_ok d 0 2 (by omega) (by omega), Res.bind_ok]
+  simp only [Nat.reduceSub]
+  rw [uint16_vis d.vis _ 0 (by omega), Res.bind_ok]
+  rw [GSlice.slice_ok d 2 4 (by omega) (by omega), Res.bind_ok]
+  simp only [Nat.reduceSub]
+  rw [uint16_vis d.vis _ 2 (by omega), Res.bind_ok]
+  rw [GSlice.slice_ok d 0 4 (by omega) (by omega), Res.bind_ok]
+  rw [GSlice.sliceFrom_ok d 4 h, Res.bind_ok]
+  simp only [List.drop_zero, Nat.sub_zero, pure, dot1qDecSpec]
 
 end Gp.Eth
